@@ -53,6 +53,8 @@ EXTRA_TEMPLATES = [
     ("endgroup-without-descriptor", "{[][$]CC[$]; [H][]}|gauss(100, 10)|", "molecule"),
     ("endgroup-without-descriptor-before-terminal", "C{[$][$]CC[$]; O[$]}|gauss(100, 10)|C", "molecule"),
     ("endgroups-with-and-without-descriptor", "{[][<]CC[>]; [H], [<]O[]}|gauss(100, 10)|", "molecule"),
+    ("no-repeat-unit", "{[$]; [$][H][$]}|gauss(100, 10)|", "molecule"),
+    ("no-repeat-unit-empty-terminals", "{[]; [$][H][]}|gauss(100, 10)|", "molecule"),
     ("uniform-block-in-system", "CC{[>][<]CC[>][<]}|uniform(500, 600)|O.|50%|CCO.|50%|", "system"),
 ]
 
